@@ -11,8 +11,12 @@ terminate and either return (a deque of 2-tuples / a str) or raise
 exception type, a result of another type, or a case that does not finish within
 CASE_TIMEOUT seconds is a witness.  In addition, `SearchKeywordTerms.parameters` (the lazy
 second half of parsing a `[keyword(parameters)]` segment) is evaluated on every keyword
-segment that a parse produced; the same contract is applied to it (reported under its own
-key because the raise site is in path/searchkeywordterms.py).
+segment that a parse produced; the same contract is applied to it, with one exception: the
+accessor's own deliberate `raise ValueError` for unmatched demarcation marks inside the parameters
+is pinned by the project's test-suite (tests/test_path_searchkeywordterms.py::
+test_unmatched_demarcation) and is an evaluation-time concern (C15); such cases are counted with
+out_of_scope("C14/keyword-parameters-valueerror-pinned-by-tests") (once per input string), any
+other exception type from `.parameters` is a witness.
 
 Input space
   A. every string of length <= L over the 27-character syntax alphabet ALPHA (complete
@@ -25,8 +29,9 @@ Input space
      Unicode, and "token soup" over the alphabet + keyword names and multi-char operators.
 
 Witness key:  C14/<ExceptionType>@<file under the yamlpath package>:<function>#<sha1[:8] of the
-stripped source line of the innermost frame inside the yamlpath package>   (line TEXT, not the
-line number, so the key survives unrelated edits above it);  C14/timeout@<file>:<function> for
+stripped source line of the innermost frame inside the yamlpath package plus the two non-blank
+lines above it>   (line TEXT with context, not the line number: the key survives unrelated edits
+and still tells the six `demarc_stack.pop()` sites of _parse_path apart);  C14/timeout@<file>:<function> for
 non-termination;  C14/bad-result-type@<op> if a call returns something that is not a segment
 deque / str.
 """
@@ -112,7 +117,17 @@ def _frame_key(tb):
     if fk is None:
         fn, func, lineno = inner
         text = (linecache.getline(fn, lineno) or "").strip()
-        fk = (os.path.relpath(fn, PKG_DIR), func, hashlib.sha1(text.encode()).hexdigest()[:8], lineno, text)
+        # hash of the failing line together with the two non-blank lines above it: `demarc_stack.pop()`
+        # occurs six times in _parse_path, the context tells the sites apart, and the hash still
+        # survives edits elsewhere in the file (a line number would not)
+        ctx = [text]
+        k = lineno - 1
+        while k > 0 and len(ctx) < 3:
+            t = (linecache.getline(fn, k) or "").strip()
+            if t:
+                ctx.append(t)
+            k -= 1
+        fk = (os.path.relpath(fn, PKG_DIR), func, hashlib.sha1("\n".join(ctx).encode()).hexdigest()[:8], lineno, text)
         _FRAME_CACHE[inner] = fk
     return fk
 
@@ -134,7 +149,10 @@ def _msg_stem(e):
     return "".join(c for c in m[:28] if not c.isdigit())
 
 
-def _run_op(opname, fn, p, sig, fails, timeout):
+OOS_KWPARAMS = "C14/keyword-parameters-valueerror-pinned-by-tests"
+
+
+def _run_op(opname, fn, p, sig, fails, timeout, oos=None):
     """One guarded library call.  Returns the result, or _FAILED."""
     try:
         return fn(p)
@@ -153,6 +171,16 @@ def _run_op(opname, fn, p, sig, fails, timeout):
         key, fk = _classify(e, sys.exc_info()[2])
         if key is None:
             raise               # raised outside the yamlpath package: harness bug
+        if (fn is _get_parameters and type(e) is ValueError and fk[1] == "parameters"
+                and fk[4].startswith("raise ValueError(")):
+            # The accessor's own `raise ValueError` for unmatched demarcation inside keyword parameters
+            # is pinned by tests/test_path_searchkeywordterms.py::test_unmatched_demarcation and is an
+            # evaluation-time concern (C15): not a C14 witness.  Any other exception type -- or a
+            # ValueError that is not this deliberate raise -- from `.parameters` stays a witness.
+            if oos is not None:
+                oos.append(OOS_KWPARAMS)
+            sig.append((opname, "ValueError-pinned"))
+            return _FAILED
         fails.append((key, opname, "%s: %s (line %d: %s)" % (
             type(e).__name__, str(e)[:120], fk[3], fk[4])))
         sig.append((opname, type(e).__name__))
@@ -185,7 +213,7 @@ def _get_parameters(terms):
 _MODES = ((None, None), ("separator=DOT", _set_dot), ("separator=FSLASH", _set_fslash))
 
 
-def check_string(s, fails, timeout=CASE_TIMEOUT):
+def check_string(s, fails, timeout=CASE_TIMEOUT, oos=None):
     """Run every observed operation on `s` (each one guarded on its own: a YAMLPathException from
     `.escaped` does not excuse `.unescaped` or `str()`).  Appends (key, op, observed) to `fails` for
     each contract breach and returns the outcome signature (a hashable tuple)."""
@@ -216,7 +244,7 @@ def check_string(s, fails, timeout=CASE_TIMEOUT):
                         fails.append(("C14/bad-result-type@segment", which, repr(seg)))
                     elif seg[0] is _KW and isinstance(seg[1], SearchKeywordTerms):
                         params = _run_op("%s[KEYWORD_SEARCH].parameters" % which, _get_parameters,
-                                         seg[1], sig, fails, timeout)
+                                         seg[1], sig, fails, timeout, oos)
                         if params is not _FAILED:
                             if params.__class__ is not list:
                                 fails.append(("C14/bad-result-type@parameters", which, repr(params)))
@@ -267,7 +295,10 @@ def _work_enum(chunk, L):
         for i in range(lo, hi):
             s = nth_string(i, offs)
             fails = []
-            sig = check_string(s, fails)
+            oos = []
+            sig = check_string(s, fails, oos=oos)
+            for o in oos[:1]:
+                coll.out_of_scope(o)
             n += 1
             full = (_shape(s), sig)
             if full not in sigs:
@@ -297,7 +328,10 @@ def _work_kw(chunk, LP):
             for pre, post in KW_FRAMES:
                 s = pre + x + post
                 fails = []
-                sig = check_string(s, fails)
+                oos = []
+                sig = check_string(s, fails, oos=oos)
+                for o in oos[:1]:
+                    coll.out_of_scope(o)
                 n += 1
                 full = ("kw", len(x), sig)
                 if full not in sigs:
@@ -356,7 +390,10 @@ def _work_random(chunk, seed):
         for j in range(count):
             s = random_string(rng)
             fails = []
-            sig = check_string(s, fails)
+            oos = []
+            sig = check_string(s, fails, oos=oos)
+            for o in oos[:1]:
+                coll.out_of_scope(o)
             n += 1
             full = ("rnd", s[:1] == "/", sig)
             if full not in sigs:
